@@ -207,7 +207,7 @@ func Compare(in CmpIn) []Diff {
 		w := RefWindow(EffectiveValidity(c, in.Prof), in.Loc)
 		if w.Err == nil {
 			if err := w.Check(cert.NotBefore.T, cert.NotAfter.T, in.RunStart, in.RunEnd, in.Loc); err != nil {
-				add("C04", "validity/"+validityFeature(EffectiveValidity(c, in.Prof), c, in.Prof), "%v", err)
+				add("C04", "validity/"+ValidityFeature(EffectiveValidity(c, in.Prof), c, in.Prof), "%v", err)
 			}
 		}
 		for _, tt := range []struct {
@@ -478,7 +478,7 @@ func dnDiffFeature(got, want []refx509.RDN) string {
 	return "encoding"
 }
 
-func validityFeature(v *Validity, c *CertCfg, p *ProfileCfg) string {
+func ValidityFeature(v *Validity, c *CertCfg, p *ProfileCfg) string {
 	if v == nil {
 		return "none-configured"
 	}
